@@ -36,7 +36,9 @@ pub struct Slot {
 #[derive(Clone, Debug, Serialize, Deserialize)]
 pub struct Scenario {
     pub net: Net,
-    /// generated with the trigger of known finding `oneway-partition-overridden-by-random-failures` avoided
+    /// legacy field of older replay files: scenarios used to be generated with one-way calls kept away from
+    /// fail_rate > 0 while defect C03-F1 was open; since its fix (e69d67e) nothing is guarded any more
+    #[serde(default)]
     pub guarded: bool,
     /// the pair (A, B) whose two directions the enumerated actions work on
     pub pair: (usize, usize),
@@ -232,7 +234,6 @@ impl Property for C03 {
     }
 
     fn generate(rng: &mut Rng, idx: u64, _tier: Tier) -> Scenario {
-        let guarded = !rng.chance(1, 20);
         let enumerate = idx % 4 == 0;
         let n = rng.usize(2, 4);
         let tick_ms = *rng.pick(&[1u64, 1, 2, 5, 7, 10, 20]);
@@ -244,7 +245,7 @@ impl Property for C03 {
             _ => rng.range(0, 5) * tick + rng.below(tick),
         };
         let max_latency_us = if fixed { min_latency_us } else { min_latency_us + rng.range(1, 5) * tick + rng.below(tick) };
-        let (mut fail, repair) = if rng.bool() { (*rng.pick(&[10u32, 50, 200, 500, 1000]), *rng.pick(&[100u32, 300, 700, 1000])) } else { (0, 1000) };
+        let (fail, repair) = if rng.bool() { (*rng.pick(&[10u32, 50, 200, 500, 1000]), *rng.pick(&[100u32, 300, 700, 1000])) } else { (0, 1000) };
         let run_ticks = rng.range(10, 26);
         let a = rng.usize(0, n - 1);
         let mut b = rng.usize(0, n - 2);
@@ -336,12 +337,6 @@ impl Property for C03 {
             for s in [s1, s2, s3] {
                 slots.push(gen_slot(rng, s));
             }
-            // guarded: the enumeration contains one-way actions, so random link failures stay off
-            if !guarded {
-                fail = if rng.bool() { fail.max(50) } else { fail };
-            } else if fail > 0 && rng.bool() {
-                fail = 0;
-            }
         } else {
             let len = rng.usize(4, 8);
             let mut steps_at: Vec<u32> = (0..len).map(|_| rng.range(2, run_ticks + 1) as u32).collect();
@@ -359,7 +354,7 @@ impl Property for C03 {
                     (x, y)
                 };
                 let slot = gen_slot(rng, s);
-                let k = if guarded && fail > 0 { *rng.pick(&[0usize, 0, 3]) } else { rng.usize(0, 5) };
+                let k = rng.usize(0, 5);
                 let act = letter(k, &slot, x, y);
                 place(&mut net, &slot, act);
             }
@@ -368,7 +363,7 @@ impl Property for C03 {
         let mut crng = rng.fork();
         fit_capacities(&mut crng, &mut net);
         net.steps = (run_ticks + 1 + max_latency_us.div_ceil(tick) + 4) as u32;
-        Scenario { net, guarded, pair: (a, b), slots }
+        Scenario { net, guarded: false, pair: (a, b), slots }
     }
 
     /// Fault enumeration: every action sequence of length 1..3 over both directions of (A, B).
@@ -376,9 +371,9 @@ impl Property for C03 {
         if base.slots.len() < 3 {
             return vec![base.clone()];
         }
-        // guarded runs with random link failures enumerate the symmetric sub-alphabet only (known
-        // finding: a one-way explicit partition is overridden by the random failure process)
-        let alphabet: Vec<usize> = if base.guarded && base.net.cfg.fail_rate_pm > 0 { vec![0, 3] } else { (0..6).collect() };
+        // the full alphabet under every fail/repair rate (the guard that kept one-way calls away from
+        // random link failures went with the fix of C03-F1)
+        let alphabet: Vec<usize> = (0..6).collect();
         let (a, b) = base.pair;
         let mut out = Vec::new();
         let mut seqs: Vec<Vec<usize>> = vec![vec![]];
@@ -566,8 +561,9 @@ impl Property for C03 {
         if !net.conns.is_empty() {
             rep.probes.inc("tcp_traffic");
         }
-        if !sc.guarded {
-            rep.probes.inc("unguarded");
+        if !fail0 && calls.iter().any(|c| matches!(&tr.evs[c.ev].kind, EvKind::Act(a) if is_oneway(a))) {
+            rep.probes.inc("oneway_call_with_random_failures_on");
+            rep.probes.add("message_sent_into_partition_with_oneway_and_random_failures", sent_during);
         }
         rep.abstract_digest = log.abs_digest();
         rep.full_digest = log.full_digest();
